@@ -351,3 +351,17 @@ package pql
 //@   invariant forall(r, 0, old(alloc()), out(r) == old(out(r)))
 //@   invariant !planFailL(mapdom(scope), viewL(fieldheap("subquery", "name"), fieldheap("subquery", "sourceSQL"), fieldheap("subquery", "op"), fieldheap("subquery", "sort"), fieldheap("subquery", "take"), subqueries, len(subqueries)), rangeindex + 1)
 //@   decreases len(subqueries) - rangeindex
+
+// ---------------------------------------------------------------- line:column of error messages
+
+//@ func pql.linecol
+//@   use linecol
+//@   requires 0 <= pos && pos <= len(source)
+//@   ensures @line: line == LCl(source[0:pos], 0, 1, 1)
+//@   ensures @col: col == LCc(source[0:pos], 0, 1, 1)
+//@   ensures @inside: line >= 1 && col >= 1
+//@ loop 1
+//@   invariant 0 <= nextpos && nextpos <= pos && line >= 1 && col >= 1
+//@   invariant LCl(source[0:pos], nextpos, line, col) == LCl(source[0:pos], 0, 1, 1)
+//@   invariant LCc(source[0:pos], nextpos, line, col) == LCc(source[0:pos], 0, 1, 1)
+//@   decreases pos - nextpos
